@@ -4,6 +4,10 @@
    abstract scores) and SmfRef (reference semantics of SMF) for the RMI / GMF wrappings.
    Per execution: Init, then any number of  <source> [Select] Load [Select] Play  groups, where <source> is a Mus, Xmi
    or Smf record (the abstract input + the bytes the harness produced from it).
+   The groups of one execution run on ONE player (the session dimension: XMI after XMI with other song counts and selections,
+   MUS after XMI, SMF / RMI / GMF in between, a file cut short or overwritten in between).  The expectation is reset with
+   every Load: what is judged is the file of THAT load (XmiRef!SessLoad: nothing of an earlier file survives), the only thing
+   carried from file to file is the song selection (src.sess, the fold of XmiRef!SessSelect / SessLoad / SessLoadUndefined).
    Every predicate is evaluated here; the harness only records what the library did.
    Leg (C), refinement (drift only, never a verdict): a Cvt record holds the SMF that the REAL converter functions
    (Convert_mus2midi / Convert_xmi2midi_multi, called directly on the encoded bytes) produced, parsed into abstract form;
@@ -15,7 +19,18 @@ MaxFails == 30     \* per label
 VARIABLES l, src, sel, prev, fails, cnt, exec, drift
 vars == <<l, src, sel, prev, fails, cnt, exec, drift>>
 
-Src0 == [kind |-> "none", loaded |-> FALSE]
+\* sess: the player session (XmiRef); loads / pk: number of Load steps of this execution and what the previous one was (counters only)
+Src0 == [kind |-> "none", loaded |-> FALSE, wf |-> FALSE, sess |-> Sess0, loads |-> 0, pk |-> "none"]
+Carry(new) == new @@ [sess |-> src.sess, loads |-> src.loads, pk |-> src.pk]
+\* "keep": only the first k bytes of the encoding reach the player (harness/drive_conv.cpp): a file the formats do not define
+CutShort(ev) == "keep" \in DOMAIN ev
+Keep(b, ev) == IF CutShort(ev) /\ ev.keep < Len(b) THEN SubSeq(b, 1, ev.keep) ELSE b
+NoModel == [ok |-> FALSE, unmodelled |-> TRUE]
+\* XMI "poke": bytes overwritten at absolute positions (modulo the file size), exactly as the harness does it
+RECURSIVE PokeAbs(_, _, _)
+PokeAbs(b, pk, i) == IF i > Len(pk) THEN b ELSE PokeAbs([b EXCEPT ![(pk[i][1] % Len(b)) + 1] = pk[i][2]], pk, i + 1)
+Poked(ev) == "poke" \in DOMAIN ev /\ ev.poke # <<>>
+Damaged(ev) == CutShort(ev) \/ Poked(ev)
 Prev0 == [valid |-> FALSE]
 Cnt0 == [steps |-> 0, execs |-> 0, encoders |-> 0,
          musLoads |-> 0, musPlays |-> 0, musGroups |-> 0, musEvents |-> 0, musTimed |-> 0, musExtras |-> 0, musSys |-> 0,
@@ -23,6 +38,8 @@ Cnt0 == [steps |-> 0, execs |-> 0, encoders |-> 0,
          xmiLoads |-> 0, xmiPlays |-> 0, xmiGroups |-> 0, xmiEvents |-> 0, xmiNoteOffs |-> 0, xmiTimed |-> 0, xmiMulti |-> 0,
          xmiSelected |-> 0, xmiReselect |-> 0, xmiSongCounts |-> 0,
          contPlays |-> 0, contSame |-> 0, contEvents |-> 0, rmi |-> 0, gmf |-> 0, skipped |-> 0,
+         sessLoads |-> 0, sessXmiAfterXmi |-> 0, sessXmiAfterOther |-> 0, sessOtherAfterXmi |-> 0, sessAfterRejected |-> 0, sessCutShort |-> 0,
+         sessPlays |-> 0, sessXmiPlays |-> 0, sessSelPlays |-> 0, sessOpenSel |-> 0, sessCounts |-> 0,
          refined |-> 0, drifted |-> 0, refskip |-> 0, refEvents |-> 0, refMus |-> 0, refXmi |-> 0, refSongs |-> 0, refRejected |-> 0, refCrashPredicted |-> 0, refUndefined |-> 0]
 Init == l = 1 /\ src = Src0 /\ sel = 0 /\ prev = Prev0 /\ fails = <<>> /\ cnt = Cnt0 /\ exec = 0 /\ drift = <<>>
 
@@ -166,11 +183,11 @@ MusMangle(b, ev) ==
 Mangled(ev) == ("cut" \in DOMAIN ev /\ ev.cut > 0) \/ ("poke" \in DOMAIN ev /\ ev.poke # <<>>)
 StepMus(ev) ==
   LET sc == ev.ev
-      wf == WellFormed(sc) /\ ~Mangled(ev)
-      mb == MusMangle(MusBytes(sc, ev.chans, ev.ins), ev)
+      wf == WellFormed(sc) /\ ~Mangled(ev) /\ ~CutShort(ev)
+      mb == Keep(MusMangle(MusBytes(sc, ev.chans, ev.ins), ev), ev)
       enc == ev.bytes = <<>> \/ ev.bytes = mb
-      model == CvtModel("mus", mb)
-  IN /\ src' = [MkMusSrc(sc, mb) EXCEPT !.wf = wf] @@ [model |-> model]
+      model == IF CutShort(ev) THEN NoModel ELSE CvtModel("mus", mb)
+  IN /\ src' = Carry([MkMusSrc(sc, mb) EXCEPT !.wf = wf] @@ [model |-> model, cutshort |-> CutShort(ev)])
      /\ fails' = AddFails(Tag(Lbl(enc, "harness-encoder"), ev, "MUS bytes differ from MusRef!MusBytes"))
      /\ cnt' = [cnt EXCEPT !.steps = @ + 1, !.encoders = @ + (IF ev.bytes # <<>> THEN 1 ELSE 0), !.skipped = @ + (IF wf THEN 0 ELSE 1),
                            !.musSys = @ + (IF HasSys(sc) THEN 1 ELSE 0), !.musOddPitch = @ + (IF HasOddPitch(sc) THEN 1 ELSE 0),
@@ -178,7 +195,8 @@ StepMus(ev) ==
                            !.musPerc = @ + (IF \E i \in DOMAIN sc : sc[i].ch = 15 /\ sc[i].k # "end" THEN 1 ELSE 0),
                            !.musLongDelay = @ + Cardinality({ i \in DOMAIN sc : sc[i].dl >= 128 }),
                            !.refCrashPredicted = @ + (IF "crash" \in DOMAIN model THEN 1 ELSE 0),
-                           !.refUndefined = @ + (IF "unmodelled" \in DOMAIN model THEN 1 ELSE 0)]
+                           !.refUndefined = @ + (IF "unmodelled" \in DOMAIN model /\ ~CutShort(ev) THEN 1 ELSE 0),
+                           !.sessCutShort = @ + (IF CutShort(ev) THEN 1 ELSE 0)]
      /\ UNCHANGED <<sel, prev, exec, drift>>
 MkXmiSrc(songs, bytes) ==
   LET f == [songs |-> songs]
@@ -188,43 +206,62 @@ MkXmiSrc(songs, bytes) ==
   IN [kind |-> "xmi", loaded |-> FALSE, wf |-> wf, refs |-> refs, n |-> Len(songs), bytes |-> bytes]
 StepXmi(ev) ==
   LET f == [songs |-> ev.songs]
-      wf == XmiWellFormed(f)
-      xb == XmiBytes(f)
+      wf == XmiWellFormed(f) /\ ~Damaged(ev)
+      xb0 == XmiBytes(f)
+      xb == Keep(IF Poked(ev) THEN PokeAbs(xb0, ev.poke, 1) ELSE xb0, ev)
       enc == ev.bytes = <<>> \/ ev.bytes = xb
-  IN /\ src' = MkXmiSrc(ev.songs, xb) @@ [model |-> CvtModel("xmi", xb)]
+  IN /\ src' = Carry([MkXmiSrc(ev.songs, xb) EXCEPT !.wf = wf] @@ [model |-> IF Damaged(ev) THEN NoModel ELSE CvtModel("xmi", xb), cutshort |-> Damaged(ev)])
      /\ fails' = AddFails(Tag(Lbl(enc, "harness-encoder"), ev, "XMI bytes differ from XmiRef!XmiBytes"))
      /\ cnt' = [cnt EXCEPT !.steps = @ + 1, !.encoders = @ + (IF ev.bytes # <<>> THEN 1 ELSE 0), !.skipped = @ + (IF wf THEN 0 ELSE 1),
-                           !.xmiMulti = @ + (IF Len(ev.songs) > 1 THEN 1 ELSE 0)]
+                           !.xmiMulti = @ + (IF Len(ev.songs) > 1 THEN 1 ELSE 0), !.sessCutShort = @ + (IF Damaged(ev) THEN 1 ELSE 0)]
      /\ UNCHANGED <<sel, prev, exec, drift>>
 MkSong(ev) ==
   LET s0 == [div |-> ev.div, fmt |-> ev.fmt, tracks |-> ev.tracks]
       s1 == s0 @@ [tempi |-> TempoEvents(s0)]
       its == AllItems(s1)
   IN s1 @@ [its |-> its, len |-> (CHOOSE m \in { its[i].t : i \in DOMAIN its } : \A i \in DOMAIN its : its[i].t <= m) + 1000000]
-StepSmf(ev) == /\ src' = [kind |-> "smf", loaded |-> FALSE, wf |-> TRUE, cont |-> ev.container, song |-> MkSong(ev)]
-               /\ cnt' = [cnt EXCEPT !.steps = @ + 1]
+StepSmf(ev) == /\ src' = Carry([kind |-> "smf", loaded |-> FALSE, wf |-> ~CutShort(ev), cont |-> ev.container, song |-> MkSong(ev)])
+               /\ cnt' = [cnt EXCEPT !.steps = @ + 1, !.sessCutShort = @ + (IF CutShort(ev) THEN 1 ELSE 0)]
                /\ UNCHANGED <<sel, prev, exec, fails, drift>>
-StepSelect(ev) == /\ sel' = ev.n /\ UNCHANGED <<src, prev, exec, fails, drift>>
+StepSelect(ev) == /\ sel' = ev.n /\ src' = [src EXCEPT !.sess = SessSelect(@, ev.n)] /\ UNCHANGED <<prev, exec, fails, drift>>
                   /\ cnt' = [cnt EXCEPT !.steps = @ + 1, !.xmiReselect = @ + (IF src.kind = "xmi" /\ src.loaded THEN 1 ELSE 0)]
 StepLoad(ev) ==
   LET ok == ev.r = 0
+      defined == src.kind # "none" /\ src.wf
+      \* the session after this load: what is loaded is THIS file (when accepted), whatever was loaded before
+      ns == IF defined THEN SessLoad(src.sess, src.kind, IF src.kind = "xmi" THEN src.n ELSE 1, ok) ELSE SessLoadUndefined(src.sess, ev.songs)
+      \* the song count is that of the file of this load: judged for every file the formats define and after every rejection
+      counted == (defined /\ (src.kind # "mus" \/ ~src.sys)) \/ ~ok
+      cntF == IF counted THEN Lbl(SessCountOK(ns, ev.songs), IF SessXmi(ns) THEN "xmi-songs-count" ELSE "songs-count-without-xmi") ELSE {}
+      now == IF ~ok THEN "rejected" ELSE IF defined THEN src.kind ELSE "undefined"
       f == CASE src.kind = "mus" -> Lbl(ok, IF src.sys THEN "mus-system-event" ELSE "mus-load-failed")
-             [] src.kind = "xmi" -> Lbl(ok, "xmi-load-failed") \cup Lbl(~ok \/ ev.songs = src.n, "xmi-songs-count")
+             [] src.kind = "xmi" -> Lbl(ok, "xmi-load-failed")
              [] src.kind = "smf" -> IF src.cont = "smf" THEN {}
                                     ELSE Lbl(ok, Pre(src.cont, "load-failed")) \cup Lbl(~ok \/ ev.len = src.song.len, Pre(src.cont, "length")) \cup
                                          Lbl(~ok \/ ev.tracks = Len(src.song.tracks), Pre(src.cont, "track-count"))
              [] OTHER -> {}
-  IN /\ src' = IF src.kind = "none" THEN src ELSE [src EXCEPT !.loaded = ok /\ src.wf]
-     /\ fails' = AddFails(Tag(IF src.kind # "none" /\ src.wf THEN f ELSE {}, ev, ToString(<<"r", ev.r, ev.err, "songs", ev.songs, "len", ev.len>>)))
+  IN /\ src' = [src EXCEPT !.loaded = ok /\ defined, !.sess = ns, !.loads = @ + 1, !.pk = now]
+     /\ fails' = AddFails(Tag((IF defined THEN f ELSE {}) \cup cntF, ev,
+                               ToString(<<"r", ev.r, ev.err, "songs", ev.songs, "len", ev.len, "load number", src.loads + 1, "after", src.pk, "session", ns>>)))
      /\ cnt' = [cnt EXCEPT !.steps = @ + 1, !.musLoads = @ + (IF src.kind = "mus" /\ ok THEN 1 ELSE 0),
                            !.xmiLoads = @ + (IF src.kind = "xmi" /\ ok THEN 1 ELSE 0),
-                           !.xmiSongCounts = @ + (IF src.kind = "xmi" /\ ok THEN 1 ELSE 0)]
+                           !.xmiSongCounts = @ + (IF src.kind = "xmi" /\ ok THEN 1 ELSE 0),
+                           !.sessLoads = @ + (IF src.loads > 0 THEN 1 ELSE 0),
+                           !.sessXmiAfterXmi = @ + (IF now = "xmi" /\ src.pk = "xmi" THEN 1 ELSE 0),
+                           !.sessXmiAfterOther = @ + (IF now = "xmi" /\ src.pk \in {"mus", "smf"} THEN 1 ELSE 0),
+                           !.sessOtherAfterXmi = @ + (IF now \in {"mus", "smf"} /\ src.pk = "xmi" THEN 1 ELSE 0),
+                           !.sessAfterRejected = @ + (IF now \in {"xmi", "mus", "smf"} /\ src.pk = "rejected" THEN 1 ELSE 0),
+                           !.sessCounts = @ + (IF src.loads > 0 /\ counted THEN 1 ELSE 0)]
      /\ UNCHANGED <<sel, prev, exec, drift>>
 StepPlay(ev) ==
   LET D == AllLog(ev.calls)
       C == ChanOf(D)
       go == src.kind # "none" /\ src.loaded
-      n == IF src.kind = "xmi" THEN Clamp(sel, 0, src.n - 1) ELSE 0
+      \* the selected song: the readings the session leaves open (one, unless a request met a file it was out of range for)
+      N == IF go /\ src.kind = "xmi" THEN SessSongs(src.sess) ELSE {0}
+      n == IF Cardinality(N) = 1 THEN CHOOSE c \in N : TRUE
+           ELSE LET good == { c \in N : XmiPlayFails(ev, src, c) = {} } IN
+                IF good # {} THEN CHOOSE c \in good : TRUE ELSE Clamp(sel, 0, src.n - 1)
       f == IF ~go THEN {}
            ELSE CASE src.kind = "mus" -> MusPlayFails(ev, src)
                   [] src.kind = "xmi" -> XmiPlayFails(ev, src, n)
@@ -249,7 +286,9 @@ StepPlay(ev) ==
                    !.xmiSelected = @ + (IF xmi /\ n > 0 THEN 1 ELSE 0),
                    !.contPlays = @ + (IF wrapped THEN 1 ELSE 0), !.contEvents = @ + (IF wrapped THEN Len(D) ELSE 0),
                    !.contSame = @ + (IF wrapped /\ prev.valid /\ prev.key = SongKey(src) THEN 1 ELSE 0),
-                   !.rmi = @ + (IF wrapped /\ src.cont = "rmi" THEN 1 ELSE 0), !.gmf = @ + (IF wrapped /\ src.cont = "gmf" THEN 1 ELSE 0)]
+                   !.rmi = @ + (IF wrapped /\ src.cont = "rmi" THEN 1 ELSE 0), !.gmf = @ + (IF wrapped /\ src.cont = "gmf" THEN 1 ELSE 0),
+                   !.sessPlays = @ + (IF go /\ src.loads > 1 THEN 1 ELSE 0), !.sessXmiPlays = @ + (IF xmi /\ src.loads > 1 THEN 1 ELSE 0),
+                   !.sessSelPlays = @ + (IF xmi /\ src.loads > 1 /\ n > 0 THEN 1 ELSE 0), !.sessOpenSel = @ + (IF Cardinality(N) > 1 THEN 1 ELSE 0)]
      /\ UNCHANGED <<src, sel, exec, drift>>
 ---------------------------------------------------------------------------
 (* leg (C): the recorded output of the real converter against the implementation models *)
@@ -281,7 +320,7 @@ CvtDiff(m, ev) ==
   ELSE LET D == { s \in DOMAIN m.songs : SongDiff(m.songs[s], ev.songs[s]) # "" } IN
        IF D = {} THEN "" ELSE LET s == CHOOSE x \in D : \A y \in D : x <= y IN ToString(<<"song", s - 1>>) \o " " \o SongDiff(m.songs[s], ev.songs[s])
 StepCvt(ev) ==
-  LET go == src.kind \in {"mus", "xmi"} /\ "model" \in DOMAIN src /\ ev.kind = src.kind
+  LET go == src.kind \in {"mus", "xmi"} /\ "model" \in DOMAIN src /\ ev.kind = src.kind /\ ~src.cutshort
       m == IF go THEN src.model ELSE [ok |-> FALSE, unmodelled |-> TRUE]
       skip == ~go \/ "unmodelled" \in DOMAIN m
       d == IF skip THEN "" ELSE CvtDiff(m, ev)
